@@ -139,6 +139,12 @@ def run_opt(case):
         a_last, ms_last = copies[-1]
         ev_copies = copies[:-1] + [(a_last, ms_last - {tuple(m) for m in gene.alleles[a_last].func_muts})]
     raw = gen_evid.planted_table(gene, ev_copies, case["depth"], sites, rng, noise, extra, drop=case["drop"] / 100.0)
+    # observations below the quality thresholds (base quality or mapping quality 5): the stage must not see them
+    for j, n in case.get("lowq", []):
+        m = sites[j % len(sites)] if sites else None
+        if m is not None and cn.position_cn(m[0]) > 0:
+            raw.setdefault(m[0], {}).setdefault(m[1], [])
+            raw[m[0]][m[1]] = list(raw[m[0]][m[1]]) + [((5, 60) if (j + n) % 2 else (60, 5))] * n
     # phases: fragments consistent with one planted copy over 2-3 catalogue positions (+ chimeric ones)
     phases = None
     if case["phases"]:
@@ -346,7 +352,8 @@ def strategy(tier):
              "noisy": st.booleans(), "extra": st.lists(st.integers(0, 30), max_size=2), "drop": st.sampled_from([0, 0, 20]),
              "phases": st.sampled_from([0, 0, 6, 20]), "mms": st.just(1), "seed": st.integers(0, 10 ** 6),
              "twin_extra": st.booleans(), "homo": st.sampled_from([False, False, True]), "short": st.sampled_from([False, False, True]),
-             "novel": st.sampled_from([None, None, 0, 1, 2]), "multi": st.sampled_from([False, False, True]), "novel_last": st.booleans(), "first_any": st.sampled_from([False, False, True]), "all_fused": st.sampled_from([0, 0, 0, 1, 2])}
+             "novel": st.sampled_from([None, None, 0, 1, 2]), "multi": st.sampled_from([False, False, True]), "novel_last": st.booleans(), "first_any": st.sampled_from([False, False, True]),
+             "lowq": st.lists(st.tuples(st.integers(0, 30), st.integers(1, 25)).map(list), max_size=2), "all_fused": st.sampled_from([0, 0, 0, 1, 2])}
         if g == "gen":
             d["db"] = gen_db.db_specs(gaps=False, pseudo=True, force_sv=True, small=True, max_sites=5, max_alleles=5, twins=True, keep_lost=True)
         return st.fixed_dictionaries(d)
